@@ -1,27 +1,46 @@
 #!/bin/bash
 # Must-fail corpus: every seeded change under seeded/<name>/ that a check caught when it was recorded must
-# still be caught. Applies each patch to /repo (which must be clean), runs the checks named in meta.json,
-# expects a VIOLATION line that the unchanged tree does not give, and restores the tree.
-# Development tool (it touches /repo's working tree): not a registered command.
+# still be caught. Works on scratch copies only: a detached worktree of /repo's HEAD plus /repo's uncommitted
+# changes, and a copy of /verif (so neither /repo's working tree nor /verif/evidence is touched). Applies each
+# patch, runs the checks named in meta.json, expects a VIOLATION line, and restores the scratch tree.
+# Development tool (uses /tmp): not a registered command.
+# usage: tools_selftest.sh [seed-name ...]
 set -u
 export GOFLAGS=-mod=mod GOPROXY=off GOSUMDB=off GOTOOLCHAIN=local
-cd /verif
-if ! git -C /repo diff --quiet || ! git -C /repo diff --cached --quiet; then echo "/repo has uncommitted changes"; exit 2; fi
+R=/tmp/yqv_selftest_repo
+V=/tmp/yqv_selftest_verif
+git -C /repo worktree remove --force $R 2>/dev/null
+rm -rf $R $V
+git -C /repo worktree add -q --detach $R HEAD || exit 2
+git -C /repo diff HEAD | git -C $R apply --allow-empty 2>/dev/null
+git -C $R add -A >/dev/null; git -C $R -c user.name=selftest -c user.email=s@t commit -qm "selftest base" --allow-empty
+mkdir -p $V
+rsync -a --exclude .git --exclude replay --exclude evidence /verif/ $V/
+mkdir -p $V/evidence $V/replay
+export YQ_REPO=$R VERIF_DIR=$V
+cd $V
 fail=0
-for d in seeded/*/; do
+for d in /verif/seeded/*/; do
   name=$(basename $d)
-  [ -n "${1:-}" ] && [ "$1" != "$name" ] && continue
+  if [ $# -gt 0 ]; then case " $* " in *" $name "*) ;; *) continue;; esac; fi
   checks=$(python3 -c "import json;print(' '.join(json.load(open('$d/meta.json'))['detected_by_checks']))")
   if [ -z "$checks" ]; then echo "$name: recorded as not detected, skipped"; continue; fi
-  if ! git -C /repo apply --check /verif/$d/patch.diff 2>/dev/null; then echo "$name: patch no longer applies to this tree (the code it changes was repaired since), skipped"; continue; fi
-  git -C /repo apply /verif/$d/patch.diff
+  if ! git -C $R apply --check $d/patch.diff 2>/dev/null; then echo "$name: patch no longer applies to this tree (the code it changes was repaired since), skipped"; continue; fi
+  git -C $R apply $d/patch.diff
   hit=""
   for c in $checks; do
-    if ./bin/yqv check $c --tier quick 2>&1 | grep -q "^VIOLATION"; then hit="$hit $c"; fi
+    if $V/bin/yqv check $c --tier quick 2>&1 | grep -q "^VIOLATION"; then hit="$hit $c"; fi
   done
-  git -C /repo checkout -- .
+  git -C $R checkout -q -- .
   if [ -z "$hit" ]; then echo "$name: NOT DETECTED any more (expected:$checks)"; fail=1; else echo "$name: detected by$hit"; fi
 done
-# evidence files were rewritten by the seeded runs: refresh them on the clean tree
-for c in $(python3 -c "import json;print(' '.join(x['property_id'] for x in json.load(open('MANIFEST.json'))['checks']))"); do ./bin/yqv check $c --tier quick >/dev/null 2>&1; done
+# the clean scratch tree must be quiet for every registered check (a corpus that alarms anyway proves nothing)
+for c in $(python3 -c "import json;print(' '.join(x['property_id'] for x in json.load(open('/verif/MANIFEST.json'))['checks']))"); do
+  [ $# -gt 0 ] && break
+  if $V/bin/yqv check $c --tier quick 2>&1 | grep -q "^VIOLATION"; then echo "clean tree: $c ALARMS"; fail=1; fi
+done
+cd /
+git -C /repo worktree remove --force $R
+git -C /repo worktree prune
+rm -rf $R $V
 exit $fail
